@@ -212,12 +212,16 @@ impl Mempool {
                 Some(block) => block.timestamp,
             };
 
-            assert!(
-                current_timestamp > previous_block_timestamp,
-                "current timestamp = {:?} should be larger than previous block timestamp : {:?}",
-                StatVariable::format_timestamp(current_timestamp),
-                StatVariable::format_timestamp(previous_block_timestamp)
-            );
+            if current_timestamp <= previous_block_timestamp {
+                // the tip carries a timestamp ahead of our clock (timestamps of accepted
+                // blocks are not compared with local time): nothing can be bundled yet
+                warn!(
+                    "current timestamp = {:?} is not larger than previous block timestamp : {:?}. not bundling",
+                    StatVariable::format_timestamp(current_timestamp),
+                    StatVariable::format_timestamp(previous_block_timestamp)
+                );
+                return None;
+            }
             block_timestamp_gap =
                 Duration::from_millis(current_timestamp - previous_block_timestamp).as_secs();
             public_key = wallet.public_key;
